@@ -359,3 +359,59 @@ Definition check_merged (m : N * list N) : bool :=
 Definition check_case_c12m (sys_reqs : list pos) (sys_idx : list nat) (plugins : list (pos * bool))
            (us : list user_src) (loaded : bool) (obs : list obs_t) (mobs : list (N * Z)) (merged : list (N * list N)) : bool :=
   check_case_c12 sys_reqs sys_idx plugins us loaded obs mobs && forallb check_merged merged.
+
+(* ---------- the loader's plugin set-up sequence over the POS table (plugin/mod.rs Plugins::load) ----------
+   Every kind of plugin is set up over the same grammar, one kind after the other.  An OOV provider may EXTEND the POS table
+   (handle_user_pos: userPOS allow registers an unknown POS, forbid fails); a path-rewrite plugin (JoinKatakanaOovPlugin's
+   oovPOS, JoinNumericPlugin's numeral POS) only READS it (get_part_of_speech_id: fails when the POS is absent).
+   oov = the providers' requests (POS, allow) in configuration order; rw = the POS the path-rewrite plugins name. *)
+Fixpoint resolve_all (pl : list pos) (ps : list pos) : option (list N) :=
+  match ps with
+  | [] => Some []
+  | p :: t => match index_of p pl 0, resolve_all pl t with
+              | Some i, Some l => Some (i :: l)
+              | _, _ => None
+              end
+  end.
+
+(* providers first, then the path-rewrite plugins: result = (POS table, ids of the providers, ids of the path-rewrite plugins) *)
+Definition setup_oov_first (pl : list pos) (oov : list (pos * bool)) (rw : list pos) : option (list pos * list N * list N) :=
+  match load_plugins pl oov with
+  | None => None
+  | Some (pl', ids) => match resolve_all pl' rw with
+                       | None => None
+                       | Some rids => Some (pl', ids, rids)
+                       end
+  end.
+
+(* the other way round *)
+Definition setup_rewrite_first (pl : list pos) (oov : list (pos * bool)) (rw : list pos) : option (list pos * list N * list N) :=
+  match resolve_all pl rw with
+  | None => None
+  | Some rids => match load_plugins pl oov with
+                 | None => None
+                 | Some (pl', ids) => Some (pl', ids, rids)
+                 end
+  end.
+
+Fixpoint position_of (x : string) (l : list string) (i : nat) : option nat :=
+  match l with
+  | [] => None
+  | y :: t => if String.eqb x y then Some i else position_of x t (S i)
+  end.
+
+(* is "oov" set up before "path_rewrite" in the order re-read from Plugins::load? *)
+Definition oov_before_rewrite (order : list string) : bool :=
+  match position_of "oov" order 0, position_of "path_rewrite" order 0 with
+  | Some a, Some b => Nat.ltb a b
+  | _, _ => false
+  end.
+
+(* the set-up as the code does it *)
+Definition setup (pl : list pos) (oov : list (pos * bool)) (rw : list pos) : option (list pos * list N * list N) :=
+  if oov_before_rewrite LF.plugin_setup_order then setup_oov_first pl oov rw else setup_rewrite_first pl oov rw.
+
+(* correspondence: does a configuration with these providers and path-rewrite POS load over the system dictionary whose rows
+   ask for sys_reqs? *)
+Definition check_setup (sys_reqs : list pos) (sys_idx : list nat) (plugins : list (pos * bool)) (rw : list pos) (base_loaded : bool) : bool :=
+  Bool.eqb base_loaded (match setup (u_table (build_dict [] sys_reqs sys_idx)) plugins rw with Some _ => true | None => false end).
